@@ -9,6 +9,10 @@ require (
 	golang.org/x/tools v0.30.0
 	example.com/rb1 v0.0.0
 	example.com/rb2 v0.0.0
+	example.com/io v0.0.0
+	example.com/a/foo v0.0.0
+	example.com/b/foo v0.0.0
+	example.com/c20/lib v0.0.0
 )
 
 require (
@@ -24,3 +28,12 @@ replace github.com/quasilyte/go-ruleguard => /repo
 replace example.com/rb1 => ./fake/rb1
 
 replace example.com/rb2 => ./fake/rb2
+
+// third-party packages for the C20 import-table scenarios (base names collide with each other and with the stdlib)
+replace example.com/io => ./fake/c20io
+
+replace example.com/a/foo => ./fake/c20afoo
+
+replace example.com/b/foo => ./fake/c20bfoo
+
+replace example.com/c20/lib => ./fake/c20lib
